@@ -128,6 +128,61 @@ pub fn contradiction_strategy() -> impl Strategy<Value = Vec<Vec<Lit>>> {
         })
 }
 
+/// "regrouping" family: the same multiset of literals is split into clauses in two different ways, one
+/// grouping guarded by g and the other by !g. Deciding g either way leaves residuals that mention every
+/// literal equally often but group them differently - the shape on which a residual hash (or component
+/// cache key) that forgets clause grouping collides.
+pub fn regroup_strategy(max_nv: u8) -> impl Strategy<Value = Vec<Vec<Lit>>> {
+    (5u8..=max_nv.max(5))
+        .prop_flat_map(|nv| {
+            (
+                Just(nv),
+                0..nv,
+                any::<bool>(),
+                proptest::collection::vec(any::<bool>(), (nv - 1) as usize),
+                proptest::collection::vec(any::<u16>(), (nv - 1) as usize),
+                proptest::collection::vec(2usize..=3, 3),
+                proptest::collection::vec(2usize..=3, 3),
+                proptest::collection::vec(proptest::collection::vec(lit_strategy(nv), 1..=3), 0..=2),
+                any::<bool>(),
+            )
+        })
+        .prop_map(|(nv, g, gp, pols, keys, c1, c2, extra, guard_both)| {
+            let others: Vec<u8> = (0..nv).filter(|v| *v != g).collect();
+            let lits: Vec<Lit> = others.iter().zip(pols.iter()).map(|(v, p)| (*v, *p)).collect();
+            let mut perm: Vec<usize> = (0..lits.len()).collect();
+            perm.sort_by_key(|i| keys[*i]);
+            let lits2: Vec<Lit> = perm.iter().map(|i| lits[*i]).collect();
+            let chunk = |l: &Vec<Lit>, sizes: &Vec<usize>| -> Vec<Vec<Lit>> {
+                let mut out = Vec::new();
+                let mut i = 0;
+                let mut k = 0;
+                while i < l.len() {
+                    let sz = sizes[k % sizes.len()].min(l.len() - i);
+                    out.push(l[i..i + sz].to_vec());
+                    i += sz;
+                    k += 1;
+                }
+                out
+            };
+            let mut out: Vec<Vec<Lit>> = Vec::new();
+            for c in chunk(&lits, &c1) {
+                let mut c = c;
+                c.insert(0, (g, gp));
+                out.push(c);
+            }
+            for c in chunk(&lits2, &c2) {
+                let mut c = c;
+                if guard_both {
+                    c.insert(0, (g, !gp));
+                }
+                out.push(c);
+            }
+            out.extend(extra);
+            out
+        })
+}
+
 /// the general CNF generator: n <= 7, 0..12 clauses of length 0..5, plus edge-case families
 pub fn cnf_strategy() -> BoxedStrategy<CnfCase> {
     prop_oneof![
@@ -135,6 +190,7 @@ pub fn cnf_strategy() -> BoxedStrategy<CnfCase> {
         3 => (2u8..=7).prop_flat_map(|nv| clauses_strategy(nv, 10, 1, 3)),
         2 => gadget_strategy(),
         2 => contradiction_strategy(),
+        2 => regroup_strategy(7),
         1 => (1u8..=7).prop_flat_map(|nv| clauses_strategy(nv, 6, 1, 1)),
         1 => Just(vec![]),
     ]
@@ -148,6 +204,7 @@ pub fn sat_cnf_strategy() -> BoxedStrategy<CnfCase> {
         6 => (1u8..=6).prop_flat_map(|nv| clauses_strategy(nv, 10, 1, 4)),
         3 => (3u8..=6).prop_flat_map(|nv| clauses_strategy(nv, 8, 2, 4)),
         2 => gadget_strategy(),
+        2 => regroup_strategy(6),
         1 => contradiction_strategy().prop_map(|cs| cs.into_iter().map(|c| c.into_iter().map(|(v, p)| (v.min(5), p)).collect()).collect()),
         1 => (1u8..=6).prop_flat_map(|nv| clauses_strategy(nv, 6, 0, 3)),
     ]
